@@ -11,8 +11,17 @@ func H_C06_clen(d, m int) { c06clen(d, m, 0) }
 // second message of a pipelined stream does).
 func H_C06_clen_at(d, m, k int) { c06clen(d, m, k) }
 
-func c06clen(d, m, k int) {
-	pre := "INVITE sip:a SIP/2.0\r\nf:a\r\nContent-Length: "
+func c06clen(d, m, k int) { c06clenv(d, m, k, 0) }
+
+// H_C06_clen_chunk: the same with the Content-Length header written in one of
+// its legal variants (v: 1 "Content-Length :", 2 "l\t : ", 3 "CONTENT-LENGTH:")
+// and the message delivered in two pieces (every cut, chosen symbolically;
+// not combined with the no-more-data flag).
+func H_C06_clen_chunk(d, m, k, v int) { c06clenv(d, m, k, v) }
+
+func c06clenv(d, m, k, v int) {
+	names := [...]string{"Content-Length: ", "Content-Length : ", "l\t : ", "CONTENT-LENGTH:"}
+	pre := "INVITE sip:a SIP/2.0\r\nf:a\r\n" + names[v]
 	dig := vBytes(d)
 	vAssume(vAllDigits(dig))
 	buf := append([]byte(pre), dig...)
@@ -27,7 +36,19 @@ func c06clen(d, m, k int) {
 	flags := vU8() & 7
 	var msg PSIPMsg
 	msg.Init(nil, nil, nil)
-	ret, e := ParseSIPMsg(buf, k, &msg, flags)
+	o := k
+	if v > 0 {
+		if c := vChoice(len(buf) - k); c > 0 && flags&SIPMsgNoMoreDataF == 0 {
+			var e1 ErrorHdr
+			o, e1 = ParseSIPMsg(buf[:k+c], k, &msg, flags)
+			if e1 != ErrHdrMoreBytes {
+				// definitive on a prefix: C03 territory; parse again in one piece
+				msg.Reset()
+				o = k
+			}
+		}
+	}
+	ret, e := ParseSIPMsg(buf, o, &msg, flags)
 	n, sat := refDec(dig, 1<<24)
 	tooBig := vOr(sat, d > 9)
 	skip := flags&SIPMsgSkipBodyF != 0
